@@ -842,6 +842,268 @@ pub mod imports {
             (infos, groups)
         })
     }
+
+    // ---- the import algebra, stage by stage (C10)
+
+    /// A top-level `UseTree` as the merging code sees it.
+    #[derive(Debug, Clone, PartialEq, Eq)]
+    pub struct UseItem {
+        /// the path, encoded as by `parse_use_trees`
+        pub tree: String,
+        /// `None`: no visibility (nested and `from_path` trees); otherwise a key such that
+        /// `is_same_visibility(a, b)` iff the keys are equal: empty for an inherited visibility,
+        /// `pub`, `pub(<path>)`
+        pub vis: Option<String>,
+        /// source text of the attributes, one per line
+        pub attrs: Option<String>,
+        /// `contains_comment()`
+        pub comment: bool,
+    }
+
+    fn encode_use_item(context: &crate::rewrite::RewriteContext<'_>, tree: &UseTree) -> UseItem {
+        let (vis, attrs, comment) = crate::imports::verif_local::facts(tree);
+        UseItem {
+            tree: encode_tree(tree),
+            vis: vis.map(|v| match v.kind {
+                ast::VisibilityKind::Public => "pub".to_owned(),
+                ast::VisibilityKind::Inherited => String::new(),
+                ast::VisibilityKind::Restricted { ref path, .. } => {
+                    format!("pub({})", rustc_ast_pretty::pprust::path_to_string(path))
+                }
+            }),
+            attrs: attrs.map(|attrs| {
+                attrs
+                    .iter()
+                    .map(|a| context.snippet(a.span).to_owned())
+                    .collect::<Vec<_>>()
+                    .join("\n")
+            }),
+            comment,
+        }
+    }
+
+    fn granularity_of(g: u8) -> crate::config::ImportGranularity {
+        use crate::config::ImportGranularity::*;
+        match g {
+            0 => Preserve,
+            1 => Crate,
+            2 => Module,
+            3 => Item,
+            _ => One,
+        }
+    }
+
+    fn quiet<R>(f: impl FnOnce() -> R) -> Option<R> {
+        catch_unwind(AssertUnwindSafe(f)).ok()
+    }
+
+    /// What every stage of the import rewriting makes of the top-level `use` items of `src`,
+    /// taken as one run. Granularities are numbered 0 `Preserve`, 1 `Crate`, 2 `Module`,
+    /// 3 `Item`, 4 `One`; shared prefixes 0 `Crate`, 1 `Module`, 2 `One`. `None` where the code
+    /// panicked.
+    #[derive(Debug, Clone)]
+    pub struct UseStages {
+        /// `UseTree::from_ast`
+        pub raw: Vec<UseItem>,
+        /// `.normalize()` of each
+        pub normalized: Vec<Option<UseItem>>,
+        /// the normalised items with the comments around them attached, as the `use` arm of
+        /// `rewrite_reorderable_or_regroupable_items` hands them to the merging code
+        pub attached: Vec<UseItem>,
+        /// `flatten(Item)` and `flatten(Crate)` of each attached item
+        pub flat_item: Vec<Vec<UseItem>>,
+        pub flat_other: Vec<Vec<UseItem>>,
+        /// `nest_trailing_self` of each attached item
+        pub nested: Vec<UseItem>,
+        /// `share[i][j][sp] = attached[i].share_prefix(attached[j], sp)`
+        pub share: Vec<Vec<[bool; 3]>>,
+        /// `merged[i][j][sp]`: `attached[i]` after `.merge(attached[j], sp)`; empty unless asked
+        pub merged: Vec<Vec<[Option<UseItem>; 3]>>,
+        /// `normalize_use_trees_with_granularity(attached, g)` for the five granularities
+        pub granularity: Vec<Option<Vec<UseItem>>>,
+        /// `group_imports(attached)`
+        pub groups: Vec<Vec<UseItem>>,
+        /// the groups the `use` arm renders under `config`
+        pub run: Vec<Vec<UseItem>>,
+    }
+
+    pub fn use_stages(src: &str, config: &Config, pairs: bool) -> Result<UseStages, String> {
+        use crate::imports::verif_local as il;
+        use crate::reorder::verif_local as rl;
+        with_parsed(src, config, |krate, visitor| {
+            let context = visitor.get_context();
+            let items: Vec<&ast::Item> = krate
+                .items
+                .iter()
+                .map(|p| &**p)
+                .filter(|i| matches!(i.kind, ast::ItemKind::Use(..)))
+                .collect();
+            if items.is_empty() {
+                return Err("no use item".to_owned());
+            }
+            let enc = |t: &UseTree| encode_use_item(&context, t);
+            let encs = |ts: &[UseTree]| ts.iter().map(|t| enc(t)).collect::<Vec<_>>();
+            let raw_trees: Vec<UseTree> = items
+                .iter()
+                .filter_map(|i| il::from_ast_raw(&context, i))
+                .collect();
+            let raw = encs(&raw_trees);
+            let normalized = raw_trees
+                .iter()
+                .map(|t| quiet(|| enc(&t.clone().normalize())))
+                .collect();
+            let span = crate::utils::mk_sp(
+                items.first().unwrap().span().lo(),
+                items.last().unwrap().span().hi(),
+            );
+            let (attached_trees, run) = match quiet(|| rl::use_arm(&context, &items, span)) {
+                Some(r) => r,
+                None => return Err("panic in the use arm".to_owned()),
+            };
+            let run = run.iter().map(|g| encs(g)).collect();
+            let attached = encs(&attached_trees);
+            let flat = |g: u8| -> Vec<Vec<UseItem>> {
+                attached_trees
+                    .iter()
+                    .map(|t| encs(&il::flatten(t.clone(), granularity_of(g))))
+                    .collect()
+            };
+            let flat_item = flat(3);
+            let flat_other = flat(1);
+            let nested = attached_trees
+                .iter()
+                .map(|t| enc(&il::nest_trailing_self(t.clone())))
+                .collect();
+            let share = attached_trees
+                .iter()
+                .map(|a| {
+                    attached_trees
+                        .iter()
+                        .map(|b| [0u8, 1, 2].map(|sp| il::share_prefix(a, b, sp)))
+                        .collect()
+                })
+                .collect();
+            let merged = if pairs {
+                attached_trees
+                    .iter()
+                    .map(|a| {
+                        attached_trees
+                            .iter()
+                            .map(|b| {
+                                [0u8, 1, 2].map(|sp| {
+                                    quiet(|| {
+                                        let mut a = a.clone();
+                                        il::merge(&mut a, b, sp);
+                                        enc(&a)
+                                    })
+                                })
+                            })
+                            .collect()
+                    })
+                    .collect()
+            } else {
+                vec![]
+            };
+            let granularity = (0u8..5)
+                .map(|g| {
+                    quiet(|| {
+                        encs(&crate::imports::normalize_use_trees_with_granularity(
+                            attached_trees.clone(),
+                            granularity_of(g),
+                        ))
+                    })
+                })
+                .collect();
+            let groups = rl::group(attached_trees.clone())
+                .iter()
+                .map(|g| encs(g))
+                .collect();
+            Ok(UseStages {
+                raw,
+                normalized,
+                attached,
+                flat_item,
+                flat_other,
+                nested,
+                share,
+                merged,
+                granularity,
+                groups,
+                run,
+            })
+        })?
+    }
+
+    // ---- the same functions on path-only trees (no visibility, attributes or comments), so
+    // that shapes the parser never builds can be handed to them. `None`: undecodable input;
+    // `Some(None)`: the code panicked.
+
+    pub fn tree_normalize(tree: &str, se: StyleEdition) -> Option<Option<String>> {
+        let t = decode_tree(tree, se)?;
+        Some(quiet(|| encode_tree(&t.normalize())))
+    }
+
+    pub fn tree_flatten(tree: &str, g: u8, se: StyleEdition) -> Option<Option<String>> {
+        let t = decode_tree(tree, se)?;
+        Some(quiet(|| {
+            encode_trees(&crate::imports::verif_local::flatten(t, granularity_of(g)))
+        }))
+    }
+
+    pub fn tree_nest(tree: &str, se: StyleEdition) -> Option<Option<String>> {
+        let t = decode_tree(tree, se)?;
+        Some(quiet(|| {
+            encode_tree(&crate::imports::verif_local::nest_trailing_self(t))
+        }))
+    }
+
+    pub fn tree_share(a: &str, b: &str, sp: u8, se: StyleEdition) -> Option<Option<bool>> {
+        let (a, b) = (decode_tree(a, se)?, decode_tree(b, se)?);
+        Some(quiet(|| {
+            crate::imports::verif_local::share_prefix(&a, &b, sp)
+        }))
+    }
+
+    pub fn tree_merge(a: &str, b: &str, sp: u8, se: StyleEdition) -> Option<Option<String>> {
+        let (mut a, b) = (decode_tree(a, se)?, decode_tree(b, se)?);
+        Some(quiet(|| {
+            crate::imports::verif_local::merge(&mut a, &b, sp);
+            encode_tree(&a)
+        }))
+    }
+
+    pub fn tree_merge_inner(
+        trees: &str,
+        tree: &str,
+        sp: u8,
+        se: StyleEdition,
+    ) -> Option<Option<String>> {
+        let (mut trees, tree) = (decode_trees(trees, se)?, decode_tree(tree, se)?);
+        Some(quiet(|| {
+            crate::imports::verif_local::merge_inner(&mut trees, tree, sp);
+            encode_trees(&trees)
+        }))
+    }
+
+    pub fn trees_granularity(trees: &str, g: u8, se: StyleEdition) -> Option<Option<String>> {
+        let trees = decode_trees(trees, se)?;
+        Some(quiet(|| {
+            encode_trees(&crate::imports::normalize_use_trees_with_granularity(
+                trees,
+                granularity_of(g),
+            ))
+        }))
+    }
+
+    pub fn trees_group(trees: &str, se: StyleEdition) -> Option<Vec<String>> {
+        let trees = decode_trees(trees, se)?;
+        Some(
+            crate::reorder::verif_local::group(trees)
+                .iter()
+                .map(|g| encode_trees(g))
+                .collect(),
+        )
+    }
 }
 
 /// Skip recognition (`utils.rs`, `skip.rs`), skip contexts, the visitor's buffer operations
